@@ -138,46 +138,31 @@ theorem createElement_eq (d : DT) (n : Int) (v : Val) (hw : wellTyped d v = true
 /-- `ok_length`: whatever these routes return has exactly the requested number of bits. -/
 theorem ok_length (d : DT) (n : Int) (v : Val) (hw : wellTyped d v = true) (b : Bits)
     (h : build d (some n) v = .ok b ∨ fromToken d (some n) v = .ok b ∨ packRoute d (some n) v = .ok b
-      ∨ propnSet d n v = .ok b) :
+      ∨ propnSet d n v = .ok b ∨ kwnRoute d n v = .ok b) :
     (b.length : Int) = n * (defOf d).mult := by
-  rw [build_eq d _ v hw, fromToken_eq d _ v hw, packRoute_eq d _ v hw, propnSet_eq d n v hw] at h
+  rw [build_eq d _ v hw, fromToken_eq d _ v hw, packRoute_eq d _ v hw, propnSet_eq d n v hw,
+    kwnRoute_eq_aux d n v hw] at h
   by_cases hv : valid d (some n) v = true
   · simp only [hv, if_true] at h
     have : b = encode d (some n) v := by
-      rcases h with h | h | h | h <;> (injection h with h; exact h.symm)
+      rcases h with h | h | h | h | h <;> (injection h with h; exact h.symm)
     rw [this]; exact encode_length d n v hv
   · simp [hv] at h
 
-/-- Constructor keyword `Cls(name=v, length=len)` (everything but `bytes=`, which is a window): exact
-    characterisation.  It agrees with the classification except on `kwLenUnchecked`, where it succeeds with
-    the bits of the value and ignores the stated length. -/
+/-- Constructor keyword `Cls(name=v, length=len)` (everything but `bytes=`, which is a window): the same
+    classification — the resulting length is checked since /repo b88b583. -/
 theorem kwRoute_eq (d : DT) (len : Option Int) (v : Val) (hw : wellTyped d v = true) (hd : d ≠ .bytes) :
-    kwRoute d v len none =
-      if valid d len v = true then .ok (encode d len v)
-      else if kwLenUnchecked d len v = true then .ok (encode d none v)
-      else .error .value := kwRoute_eq_aux d len v hw hd
-
-theorem kwRoute_eq_partial (d : DT) (len : Option Int) (v : Val) (hw : wellTyped d v = true) (hd : d ≠ .bytes)
-    (hreg : kwLenUnchecked d len v = false) :
-    kwRoute d v len none = if valid d len v = true then .ok (encode d len v) else .error .value := by
-  rw [kwRoute_eq d len v hw hd]; simp [hreg]
+    kwRoute d v len none = if valid d len v = true then .ok (encode d len v) else .error .value :=
+  kwRoute_eq_aux d len v hw hd
 
 /-- `offset=` with anything but a bytes / file / bitarray source is refused. -/
 theorem kwRoute_offset (d : DT) (len : Option Int) (off : Int) (v : Val) (hd : d ≠ .bytes) :
     kwRoute d v len (some off) = .error .value := kwRoute_offset_aux d len off v hd
 
-/-- Name-with-length keyword `Cls(name<n>=v)`. -/
-theorem kwnRoute_eq (d : DT) (n : Int) (v : Val) (hw : wellTyped d v = true) (hn : 0 ≤ n) :
-    kwnRoute d n v =
-      if valid d (some n) v = true then .ok (encode d (some n) v)
-      else if kwLenUnchecked d (some n) v = true then .ok (encode d none v)
-      else .error .value := kwnRoute_eq_aux d n v hw hn
-
-/-- Known deviation (finding `kw_len_unchecked`): `Bits(hex='ff', length=4)` has 8 bits. -/
-theorem kwRoute_deviates :
-    kwRoute .hex (.str "ff".toList) (some 4) none = .ok (natToBits 8 255) ∧
-    valid .hex (some 4) (.str "ff".toList) = false ∧
-    kwLenUnchecked .hex (some 4) (.str "ff".toList) = true := by decide
+/-- Name-with-length keyword `Cls(name<n>=v)` (`bytes<n>=` included: `n` counts bytes). -/
+theorem kwnRoute_eq (d : DT) (n : Int) (v : Val) (hw : wellTyped d v = true) :
+    kwnRoute d n v = if valid d (some n) v = true then .ok (encode d (some n) v) else .error .value :=
+  kwnRoute_eq_aux d n v hw
 
 /-- Plain property assignment `a.<name> = v`: the classification at the object's own length — except for
     endian integers on an object that is not whole bytes (finding `prop_endian_not_whole_bytes`). -/
@@ -248,7 +233,9 @@ example : wellTyped .intle (.int (-2)) = true ∧ valid .intle (some 16) (.int (
 example : valid .hex (some 8) (.str "0xfF".toList) = true ∧ valid .hex (some 8) (.str "f".toList) = false ∧
     valid .hex none (.str "fg".toList) = false ∧ valid .float (some 17) (.float 1 2 3) = false ∧
     valid .bool (some 2) (.int 1) = false ∧ valid .ue (some 3) (.int 1) = false ∧ valid .ue none (.int 1) = true := by decide
-example : kwLenUnchecked .uint (some 8) (.int 300) = false ∧ propEndianNotWhole .uintbe (List.replicate 16 true) = false ∧
+example : kwRoute .hex (.str "ff".toList) (some 4) none = .error .value ∧
+    kwRoute .hex (.str "ff".toList) (some 8) none = .ok (natToBits 8 255) ∧
+    propEndianNotWhole .uintbe (List.replicate 16 true) = false ∧
     (assign .uint none [true, false, true] (.int 9)).err ≠ none ∧
     (assign .uint none [true, false, true] (.int 9)).bits = [true, false, true] ∧
     (arrSet .uint 4 (natToBits 12 0xabc) (-1) (.int 16)).err ≠ none ∧
